@@ -970,7 +970,7 @@ pub fn run_profile(kv: &Args, c16: bool) -> i32 {
         if c16 {
             let p = Profile { nconn: 3, nids: 3, maxlen: 40, ttl_max: 3, boundary_ttl_pct: 0, big_advance: false,
                 messages_after_each: true, malformed_pct: 2 };
-            let n = kv.u64("random", if thorough { 6000 } else { 400 });
+            let n = kv.u64("random", if thorough { 4000 } else { 400 });
             for k in 0..n {
                 let (prefix, t0, name) = c16_template(&mut r, k as u32);
                 hists.push(random_history(&mut r, &mut rm, &p, name, prefix, t0));
@@ -983,7 +983,7 @@ pub fn run_profile(kv: &Args, c16: bool) -> i32 {
         } else {
             let p = Profile { nconn: 4, nids: 5, maxlen: 60, ttl_max: 7, boundary_ttl_pct: 12, big_advance: true,
                 messages_after_each: false, malformed_pct: 8 };
-            let n = kv.u64("random", if thorough { 6000 } else { 400 });
+            let n = kv.u64("random", if thorough { 3000 } else { 400 });
             for _ in 0..n {
                 hists.push(random_history(&mut r, &mut rm, &p, "random", vec![], 0));
             }
